@@ -287,517 +287,6 @@ theorem st2Of_sim (h : Sim N s₁ s₂) (st : PatState) (p indent start : Nat) {
   unfold st2Of
   rw [survivesOf_sim h start nb hs]
 
-/-! ## scanners that stop at a line feed, started before `N` -/
-
-theorem sim_scanWhileGo (h : Sim N s₁ s₂) (pred : UInt8 → Bool) (hpred : pred 10 = false) (k₁ k₂ p : Nat) (hp : p < N)
-    (h1 : N - p ≤ k₁) (h2 : N - p ≤ k₂) :
-    scanWhileGo s₂ pred k₂ p = scanWhileGo s₁ pred k₁ p ∧ scanWhileGo s₁ pred k₁ p < N := by
-  induction k₁ generalizing k₂ p with
-  | zero => omega
-  | succ k₁ ih =>
-    cases k₂ with
-    | zero => omega
-    | succ k₂ =>
-      simp only [scanWhileGo, h.get p (Nat.le_of_lt hp)]
-      split
-      · rename_i b hb
-        split
-        · rename_i hpb
-          have hne : b ≠ 10 := by intro e; subst e; rw [hpred] at hpb; cases hpb
-          have hlt := h.succ_lt hp hb hne
-          exact ih k₂ (p + 1) hlt (by omega) (by omega)
-        · exact ⟨rfl, hp⟩
-      · exact ⟨rfl, hp⟩
-
-theorem scanWhile_sim (h : Sim N s₁ s₂) (pred : UInt8 → Bool) (hpred : pred 10 = false) {p : Nat} (hp : p < N) :
-    scanWhile s₂ pred p = scanWhile s₁ pred p :=
-  (sim_scanWhileGo h pred hpred _ _ p hp (by have := h.lt₁ (Nat.le_refl N); omega)
-    (by have := h.lt₂ (Nat.le_refl N); omega)).1
-
-theorem Sim.scanWhile_lt (h : Sim N s₁ s₂) (pred : UInt8 → Bool) (hpred : pred 10 = false) {p : Nat} (hp : p < N) :
-    scanWhile s₁ pred p < N :=
-  (sim_scanWhileGo h pred hpred _ (s₂.size - p) p hp (by have := h.lt₁ (Nat.le_refl N); omega)
-    (by have := h.lt₂ (Nat.le_refl N); omega)).2
-
-theorem skipDigits_sim (h : Sim N s₁ s₂) {p : Nat} (hp : p < N) : skipDigits s₂ p = skipDigits s₁ p := by
-  simp only [skipDigits, scanWhile_sim h isDigit (by decide) hp]
-
-theorem Sim.skipDigits_ok_lt (h : Sim N s₁ s₂) {p : Nat} (hp : p < N) {u : Unit} {q : Nat} (hr : skipDigits s₁ p = .ok u q) :
-    q < N := by
-  unfold skipDigits at hr
-  simp only [] at hr
-  split at hr
-  · cases hr
-  · injection hr with _ h2
-    rw [← h2]; exact h.scanWhile_lt isDigit (by decide) hp
-
-theorem sim_skipDigits_err {s : Src} {p : Nat} {e : PErr} {q : Nat} (hr : skipDigits s p = .err e q) : q = p := by
-  unfold skipDigits at hr
-  simp only [] at hr
-  split at hr
-  · injection hr with _ h2; exact h2.symm
-  · cases hr
-
-/-- `take_byte_if` for a byte other than `\n` stays below `N` -/
-theorem Sim.takeByteIf_lt (h : Sim N s₁ s₂) {p : Nat} (hp : p < N) {b : UInt8} (hb : b ≠ 10) : (takeByteIf s₁ p b).1 < N := by
-  rcases takeByteIf_cases s₁ p b with ⟨e, hbyte⟩ | ⟨e, _⟩ <;> rw [e]
-  · exact h.succ_lt hp hbyte hb
-  · exact hp
-
-theorem getNumberLiteral_sim (h : Sim N s₁ s₂) {p : Nat} (hp : p < N) :
-    getNumberLiteral s₂ p = getNumberLiteral s₁ p ∧ CurLe N (getNumberLiteral s₁ p) := by
-  unfold getNumberLiteral
-  rw [takeByteIf_sim h (Nat.le_of_lt hp)]
-  have hp1 : (takeByteIf s₁ p 45).1 < N := h.takeByteIf_lt hp (by decide)
-  generalize takeByteIf s₁ p 45 = t at hp1 ⊢
-  obtain ⟨p1, m⟩ := t
-  simp only [] at hp1 ⊢
-  rw [skipDigits_sim h hp1]
-  cases hd : skipDigits s₁ p1 with
-  | ok u p2 =>
-    simp only []
-    have hp2 := h.skipDigits_ok_lt hp1 hd
-    rw [takeByteIf_sim h (Nat.le_of_lt hp2)]
-    have hp3 : (takeByteIf s₁ p2 46).1 < N := h.takeByteIf_lt hp2 (by decide)
-    generalize takeByteIf s₁ p2 46 = t at hp3 ⊢
-    obtain ⟨p3, dot⟩ := t
-    simp only [] at hp3 ⊢
-    cases dot with
-    | true =>
-      simp only [if_true]
-      rw [skipDigits_sim h hp3]
-      cases hd2 : skipDigits s₁ p3 with
-      | ok u p4 =>
-        simp only []
-        have hp4 := h.skipDigits_ok_lt hp3 hd2
-        rw [slice_sim h p (Nat.le_of_lt hp4)]
-        refine ⟨rfl, ?_⟩
-        split <;> cur_close
-      | err e q =>
-        have := sim_skipDigits_err hd2
-        exact ⟨rfl, by cur_close⟩
-      | panic m => exact ⟨rfl, trivial⟩
-      | fuel => exact ⟨rfl, trivial⟩
-    | false =>
-      simp only [Bool.false_eq_true, if_false]
-      rw [slice_sim h p (Nat.le_of_lt hp3)]
-      refine ⟨rfl, ?_⟩
-      split <;> cur_close
-  | err e q =>
-    have := sim_skipDigits_err hd
-    exact ⟨rfl, by cur_close⟩
-  | panic m => exact ⟨rfl, trivial⟩
-  | fuel => exact ⟨rfl, trivial⟩
-
-theorem getIdentifierUnchecked_sim (h : Sim N s₁ s₂) {p : Nat} (hp : p < N) :
-    getIdentifierUnchecked s₂ p = getIdentifierUnchecked s₁ p ∧
-      ∀ sp q, getIdentifierUnchecked s₁ p = .ok sp q → q < N ∧ sp.stop = q := by
-  unfold getIdentifierUnchecked
-  have hlt := h.scanWhile_lt isIdentByte (by decide) hp
-  simp only [scanWhile_sim h isIdentByte (by decide) hp]
-  cases usub p 1 with
-  | none => exact ⟨rfl, by intro sp q hq; cases hq⟩
-  | some a =>
-    simp only []
-    rw [slice_sim h a (Nat.le_of_lt hlt)]
-    refine ⟨rfl, ?_⟩
-    intro sp q hq
-    split at hq
-    · rename_i sp' hsl
-      obtain ⟨rfl, _⟩ := slice_eq_some hsl
-      injection hq with h1 h2
-      subst h1 h2
-      exact ⟨hlt, rfl⟩
-    · cases hq
-
-/-- `get_identifier_unchecked` never reports an error -/
-theorem sim_getIdentifierUnchecked_not_err {s : Src} {p : Nat} {e : PErr} {q : Nat} :
-    getIdentifierUnchecked s p ≠ .err e q := by
-  unfold getIdentifierUnchecked
-  simp only []
-  intro hq
-  split at hq
-  · cases hq
-  · split at hq <;> cases hq
-
-theorem getIdentifier_sim (h : Sim N s₁ s₂) {p : Nat} (hp : p < N) :
-    getIdentifier s₂ p = getIdentifier s₁ p ∧ CurLe N (getIdentifier s₁ p) ∧
-      ∀ sp q, getIdentifier s₁ p = .ok sp q → q < N ∧ sp.stop = q := by
-  unfold getIdentifier
-  rw [isIdentifierStart_sim h (Nat.le_of_lt hp)]
-  split
-  · exact ⟨rfl, by cur_close, by intro sp q hq; cases hq⟩
-  · rename_i hc
-    have hc : isIdentifierStart s₁ p = true := by simpa using hc
-    obtain ⟨b, hb, ha⟩ := (isIdentifierStart_iff s₁ p).mp hc
-    have hne : b ≠ 10 := by intro e; subst e; revert ha; decide
-    have hu := getIdentifierUnchecked_sim h (h.succ_lt hp hb hne)
-    refine ⟨hu.1, ?_, hu.2⟩
-    cases hr : getIdentifierUnchecked s₁ (p + 1) with
-    | ok sp q => have := (hu.2 sp q hr).1; cur_close
-    | err e q => exact absurd hr sim_getIdentifierUnchecked_not_err
-    | panic m => trivial
-    | fuel => trivial
-
-/-- `p ≤ N`: at `N` there is no `.` -/
-theorem getAttributeAccessor_sim (h : Sim N s₁ s₂) {p : Nat} (hp : p ≤ N) :
-    getAttributeAccessor s₂ p = getAttributeAccessor s₁ p ∧ CurLe N (getAttributeAccessor s₁ p) := by
-  unfold getAttributeAccessor
-  rw [takeByteIf_sim h hp]
-  rcases takeByteIf_cases s₁ p 46 with ⟨e, hb⟩ | ⟨e, _⟩ <;> rw [e] <;> simp only []
-  · have hpl := h.lt_of_byte hp hb (by decide)
-    have hlt := h.succ_lt hpl hb (by decide)
-    have := getIdentifier_sim h hlt
-    rw [this.1]
-    simp only [if_true]
-    refine ⟨trivial, ?_⟩
-    have hc := this.2.1
-    cases hid : getIdentifier s₁ (p + 1) with
-    | ok id q' => rw [hid] at hc; exact hc
-    | err e q' => rw [hid] at hc; exact hc
-    | panic m => trivial
-    | fuel => trivial
-  · simp only [Bool.false_eq_true, if_false]
-    exact ⟨trivial, by cur_close⟩
-
-theorem sim_wallByte_bnd : ∀ b : UInt8, wallByte b = true → ((b &&& 0xC0) != 0x80) = true := by
-  apply forall_uint8; decide +kernel
-
-/-- `N` is a char boundary -/
-theorem Sim.bnd_N (h : Sim N s₁ s₂) : isBoundary s₁ N = true := by
-  obtain ⟨b, hb, hw⟩ := h.wall₁
-  simp [isBoundary, hb, sim_wallByte_bnd b hw]
-
-theorem sim_nextBoundaryGo (h : Sim N s₁ s₂) (k₁ k₂ i : Nat) (hi : i ≤ N) (h1 : N - i + 1 ≤ k₁) (h2 : N - i + 1 ≤ k₂) :
-    nextBoundaryGo s₂ k₂ i = nextBoundaryGo s₁ k₁ i ∧ nextBoundaryGo s₁ k₁ i ≤ N := by
-  induction k₁ generalizing k₂ i with
-  | zero => omega
-  | succ k₁ ih =>
-    cases k₂ with
-    | zero => omega
-    | succ k₂ =>
-      simp only [nextBoundaryGo, isBoundary_sim h hi]
-      split
-      · exact ⟨rfl, hi⟩
-      · rename_i hnb
-        have hlt : i < N := by
-          by_cases he : i = N
-          · subst he; exact absurd h.bnd_N hnb
-          · omega
-        exact ih k₂ (i + 1) hlt (by omega) (by omega)
-
-theorem nextBoundary_sim (h : Sim N s₁ s₂) {i : Nat} (hi : i ≤ N) :
-    nextBoundary s₂ i = nextBoundary s₁ i ∧ nextBoundary s₁ i ≤ N :=
-  sim_nextBoundaryGo h _ _ i hi (by have := h.lt₁ (Nat.le_refl N); omega) (by have := h.lt₂ (Nat.le_refl N); omega)
-
-theorem sim_skipHexGo (h : Sim N s₁ s₂) (len p : Nat) (hp : p < N) :
-    skipHexGo s₂ len p = skipHexGo s₁ len p ∧ skipHexGo s₁ len p < N := by
-  induction len generalizing p with
-  | zero => exact ⟨rfl, hp⟩
-  | succ len ih =>
-    simp only [skipHexGo, h.get p (Nat.le_of_lt hp)]
-    split
-    · rename_i b hb
-      split
-      · rename_i hx
-        have hne : b ≠ 10 := by intro e; subst e; revert hx; decide
-        exact ih (p + 1) (h.succ_lt hp hb hne)
-      · exact ⟨rfl, hp⟩
-    · exact ⟨rfl, hp⟩
-
-theorem skipUnicodeEscapeSequence_sim (h : Sim N s₁ s₂) {p : Nat} (len : Nat) (hp : p < N) :
-    skipUnicodeEscapeSequence s₂ p len = skipUnicodeEscapeSequence s₁ p len ∧
-      CurLe (N - 1) (skipUnicodeEscapeSequence s₁ p len) := by
-  have hx := sim_skipHexGo h len p hp
-  have hlt := hx.2
-  have hnb := nextBoundary_sim h (i := skipHexGo s₁ len p + 1) (by omega)
-  unfold skipUnicodeEscapeSequence
-  simp only [hx.1]
-  split
-  · have g1 : ¬ skipHexGo s₁ len p ≥ s₁.size := by have := h.lt₁ (Nat.le_of_lt hlt); omega
-    have g2 : ¬ skipHexGo s₁ len p ≥ s₂.size := by have := h.lt₂ (Nat.le_of_lt hlt); omega
-    rw [if_neg g1, if_neg g2, hnb.1, slice_sim h p hnb.2]
-    refine ⟨rfl, ?_⟩
-    split <;> cur_close
-  · exact ⟨rfl, by cur_close⟩
-
-theorem sim_scanStringGo (h : Sim N s₁ s₂) (k₁ k₂ p : Nat) (hp : p < N) (h1 : N - p ≤ k₁) (h2 : N - p ≤ k₂) :
-    scanStringGo s₂ k₂ p = scanStringGo s₁ k₁ p ∧ CurLe (N - 1) (scanStringGo s₁ k₁ p) := by
-  induction k₁ generalizing k₂ p with
-  | zero => omega
-  | succ k₁ ih =>
-    cases k₂ with
-    | zero => omega
-    | succ k₂ =>
-      simp only [scanStringGo, h.get p (Nat.le_of_lt hp)]
-      split
-      · exact ⟨rfl, by cur_close⟩
-      · rename_i hb
-        have hlt := h.succ_lt hp hb (by decide)
-        rw [h.get _ (Nat.le_of_lt hlt)]
-        split
-        · rename_i hb1
-          have hlt2 := h.succ_lt hlt hb1 (by decide)
-          exact ih k₂ (p + 2) hlt2 (by omega) (by omega)
-        · rename_i hb1
-          have hlt2 := h.succ_lt hlt hb1 (by decide)
-          exact ih k₂ (p + 2) hlt2 (by omega) (by omega)
-        · rename_i hb1
-          have hlt2 := h.succ_lt hlt hb1 (by decide)
-          have hu := skipUnicodeEscapeSequence_sim h 4 hlt2
-          rw [hu.1]
-          cases hs : skipUnicodeEscapeSequence s₁ (p + 2) 4 with
-          | ok u' q' =>
-            have hm := skipUnicodeEscapeSequence_mono s₁ (p + 2) 4
-            have hc := hu.2
-            rw [hs] at hm hc
-            simp only [mono_ok] at hm
-            simp only [curLe_ok] at hc
-            exact ih k₂ q' (by omega) (by omega) (by omega)
-          | err e q' =>
-            have hc := hu.2
-            rw [hs] at hc
-            exact ⟨rfl, hc⟩
-          | panic m => exact ⟨rfl, trivial⟩
-          | fuel => exact ⟨rfl, trivial⟩
-        · rename_i hb1
-          have hlt2 := h.succ_lt hlt hb1 (by decide)
-          have hu := skipUnicodeEscapeSequence_sim h 6 hlt2
-          rw [hu.1]
-          cases hs : skipUnicodeEscapeSequence s₁ (p + 2) 6 with
-          | ok u' q' =>
-            have hm := skipUnicodeEscapeSequence_mono s₁ (p + 2) 6
-            have hc := hu.2
-            rw [hs] at hm hc
-            simp only [mono_ok] at hm
-            simp only [curLe_ok] at hc
-            exact ih k₂ q' (by omega) (by omega) (by omega)
-          | err e q' =>
-            have hc := hu.2
-            rw [hs] at hc
-            exact ⟨rfl, hc⟩
-          | panic m => exact ⟨rfl, trivial⟩
-          | fuel => exact ⟨rfl, trivial⟩
-        · exact ⟨rfl, by cur_close⟩
-      · exact ⟨rfl, by cur_close⟩
-      · exact ⟨rfl, by cur_close⟩
-      · rename_i b _ _ hne hb
-        have hlt := h.succ_lt hp hb hne
-        exact ih k₂ (p + 1) hlt (by omega) (by omega)
-
-theorem scanString_sim (h : Sim N s₁ s₂) {p : Nat} (hp : p < N) :
-    scanString s₂ p = scanString s₁ p ∧ CurLe (N - 1) (scanString s₁ p) :=
-  sim_scanStringGo h _ _ p hp (by have := h.lt₁ (Nat.le_refl N); omega) (by have := h.lt₂ (Nat.le_refl N); omega)
-
-theorem sim_memchr3Go (h : Sim N s₁ s₂) (k₁ k₂ p : Nat) (hp : p < N) (h1 : N - p ≤ k₁) (h2 : N - p ≤ k₂) :
-    memchr3Go s₂ k₂ p = memchr3Go s₁ k₁ p ∧ ∃ e, memchr3Go s₁ k₁ p = some e ∧ e < N := by
-  induction k₁ generalizing k₂ p with
-  | zero => omega
-  | succ k₁ ih =>
-    cases k₂ with
-    | zero => omega
-    | succ k₂ =>
-      simp only [memchr3Go, h.get p (Nat.le_of_lt hp)]
-      split
-      · rename_i h0
-        have : s₁.size ≤ p := by simpa using h0
-        have := h.lt₁ (Nat.le_of_lt hp); omega
-      · rename_i b hb
-        split
-        · exact ⟨rfl, p, rfl, hp⟩
-        · rename_i hc
-          have hne : b ≠ 10 := by intro e; subst e; simp at hc
-          exact ih k₂ (p + 1) (h.succ_lt hp hb hne) (by omega) (by omega)
-
-theorem memchr3_sim (h : Sim N s₁ s₂) {p : Nat} (hp : p < N) :
-    memchr3 s₂ p = memchr3 s₁ p ∧ ∃ e, memchr3 s₁ p = some e ∧ e < N :=
-  sim_memchr3Go h _ _ p hp (by have := h.lt₁ (Nat.le_refl N); omega) (by have := h.lt₂ (Nat.le_refl N); omega)
-
-theorem getTextSlice_sim (h : Sim N s₁ s₂) {p : Nat} (hp : p < N) : getTextSlice s₂ p = getTextSlice s₁ p := by
-  obtain ⟨e1, e, he, hlt⟩ := memchr3_sim h hp
-  have hge : p ≤ e := memchr3Go_ge he
-  unfold getTextSlice
-  have hs1 : ¬ p > s₁.size := by have := h.lt₁ (Nat.le_of_lt hp); omega
-  have hs2 : ¬ p > s₂.size := by have := h.lt₂ (Nat.le_of_lt hp); omega
-  rw [if_neg hs1, if_neg hs2, e1, he]
-  simp only []
-  rw [h.get e (Nat.le_of_lt hlt)]
-  split
-  · rfl
-  · by_cases hgt : e > p
-    · rw [h.get (e - 1) (by omega), nonBlank_sim h p (b := e - 1) (by omega), nonBlank_sim h p (b := e) (by omega)]
-    · simp only [hgt, false_and, if_false]
-      rw [nonBlank_sim h p (b := e) (by omega)]
-  · rw [nonBlank_sim h p (b := e) (by omega)]
-  · rfl
-
-theorem Sim.getTextSlice_ok (h : Sim N s₁ s₂) {p : Nat} (hp : p < N) {start stop : Nat} {nb : Bool} {term : Termination} {q : Nat}
-    (hr : getTextSlice s₁ p = .ok (start, stop, nb, term) q) :
-    start = p ∧ stop ≤ N ∧ q ≤ N ∧ (q = N → term = .lineFeed) := by
-  obtain ⟨_, e, he, hlt⟩ := memchr3_sim h hp
-  have hge : p ≤ e := memchr3Go_ge he
-  unfold getTextSlice at hr
-  have hs1 : ¬ p > s₁.size := by have := h.lt₁ (Nat.le_of_lt hp); omega
-  rw [if_neg hs1, he] at hr
-  simp only [] at hr
-  split at hr
-  · cases hr
-  · split at hr
-    · simp only [R.ok.injEq, Prod.mk.injEq] at hr
-      obtain ⟨⟨rfl, rfl, _, rfl⟩, rfl⟩ := hr
-      exact ⟨rfl, by omega, by omega, fun hq => by omega⟩
-    · simp only [R.ok.injEq, Prod.mk.injEq] at hr
-      obtain ⟨⟨rfl, rfl, _, rfl⟩, rfl⟩ := hr
-      exact ⟨rfl, by omega, by omega, fun _ => rfl⟩
-  · simp only [R.ok.injEq, Prod.mk.injEq] at hr
-    obtain ⟨⟨rfl, rfl, _, rfl⟩, rfl⟩ := hr
-    exact ⟨rfl, by omega, by omega, fun hq => by omega⟩
-  · cases hr
-
-theorem Sim.getTextSlice_err (h : Sim N s₁ s₂) {p : Nat} (hp : p < N) {e : PErr} {q : Nat}
-    (hr : getTextSlice s₁ p = .err e q) : q < N := by
-  obtain ⟨_, e', he, hlt⟩ := memchr3_sim h hp
-  unfold getTextSlice at hr
-  have hs1 : ¬ p > s₁.size := by have := h.lt₁ (Nat.le_of_lt hp); omega
-  rw [if_neg hs1, he] at hr
-  simp only [] at hr
-  split at hr
-  · injection hr with _ h2; omega
-  · split at hr <;> cases hr
-  · cases hr
-  · cases hr
-
-/-! ## at `N` itself: the first byte decides -/
-
-theorem sim_getIdentifierUnchecked_past {s : Src} {M p : Nat} (hp : M < p) : Past M (getIdentifierUnchecked s p) := by
-  unfold getIdentifierUnchecked
-  have := scanWhile_le s isIdentByte p
-  simp only []
-  split
-  · trivial
-  · split <;> cur_close
-
-/-- `get_identifier` at `p ≤ N`: the same error at `N`, or both runs are inside the entry head -/
-theorem getIdentifier_simR (h : Sim N s₁ s₂) {p : Nat} (hp : p ≤ N) : SimR N (Hash s₁ N) (getIdentifier s₁ p) (getIdentifier s₂ p) := by
-  by_cases hlt : p < N
-  · have := getIdentifier_sim h hlt
-    exact SimR.of_eq this.1 this.2.1
-  · have hpN : p = N := by omega
-    subst hpN
-    have e := isIdentifierStart_sim h (Nat.le_refl p)
-    by_cases hc : isIdentifierStart s₁ p = true
-    · obtain ⟨b, hb, ha⟩ := (isIdentifierStart_iff s₁ p).mp hc
-      have hH : ¬ Hash s₁ p := by
-        intro hh
-        unfold Hash at hh
-        rw [hb] at hh
-        injection hh with hh
-        subst hh; revert ha; decide
-      have e1 : getIdentifier s₁ p = getIdentifierUnchecked s₁ (p + 1) := by simp [getIdentifier, hc]
-      have e2 : getIdentifier s₂ p = getIdentifierUnchecked s₂ (p + 1) := by simp [getIdentifier, e, hc]
-      rw [e1, e2]
-      exact SimR.of_past hH (sim_getIdentifierUnchecked_past (by omega)) (sim_getIdentifierUnchecked_past (by omega))
-    · have hc : isIdentifierStart s₁ p = false := by simpa using hc
-      have e1 : getIdentifier s₁ p = .err (mkErr (.expectedCharRange 0) p) p := by simp [getIdentifier, hc]
-      have e2 : getIdentifier s₂ p = .err (mkErr (.expectedCharRange 0) p) p := by simp [getIdentifier, e, hc]
-      rw [e1, e2]
-      exact SimR.of_eq rfl (by cur_close)
-
-theorem sim_scanWhile_stop {s : Src} {pred : UInt8 → Bool} {p : Nat} {b : UInt8} (hb : s[p]? = some b) (hpb : pred b = false) :
-    scanWhile s pred p = p := by
-  unfold scanWhile
-  cases (s.size - p) with
-  | zero => rfl
-  | succ n => simp [scanWhileGo, hb, hpb]
-
-/-- a number literal that starts with `-` reports a cursor behind the `-` -/
-theorem sim_getNumberLiteral_past {s : Src} {p : Nat} (h45 : s[p]? = some 45) : Past p (getNumberLiteral s p) := by
-  unfold getNumberLiteral
-  rcases takeByteIf_cases s p 45 with ⟨e, _⟩ | ⟨_, hne⟩
-  · rw [e]
-    simp only []
-    cases hd : skipDigits s (p + 1) with
-    | ok u p2 =>
-      have hm := skipDigits_mono s (p + 1)
-      rw [hd] at hm
-      simp only [mono_ok] at hm
-      simp only []
-      have h2 := takeByteIf_le s p2 46
-      generalize takeByteIf s p2 46 = t at h2 ⊢
-      obtain ⟨p3, dot⟩ := t
-      simp only [] at h2 ⊢
-      cases dot with
-      | true =>
-        simp only [if_true]
-        cases hd2 : skipDigits s p3 with
-        | ok u p4 =>
-          have hm2 := skipDigits_mono s p3
-          rw [hd2] at hm2
-          simp only [mono_ok] at hm2
-          simp only []
-          split <;> cur_close
-        | err e q => have := sim_skipDigits_err hd2; cur_close
-        | panic m => trivial
-        | fuel => trivial
-      | false =>
-        simp only [Bool.false_eq_true, if_false]
-        split <;> cur_close
-    | err e q => have := sim_skipDigits_err hd; cur_close
-    | panic m => trivial
-    | fuel => trivial
-  · exact absurd h45 hne
-
-/-- a number literal at a byte that is neither `-` nor a digit -/
-theorem sim_getNumberLiteral_err {s : Src} {p : Nat} {b : UInt8} (hb : s[p]? = some b) (h45 : b ≠ 45) (hd : isDigit b = false) :
-    getNumberLiteral s p = .err (mkErr (.expectedCharRange 1) p) p := by
-  have hne : s[p]? ≠ some 45 := by rw [hb]; intro hh; injection hh with hh; exact h45 hh
-  have et : takeByteIf s p 45 = (p, false) := by
-    rcases takeByteIf_cases s p 45 with ⟨_, h1⟩ | ⟨e, _⟩
-    · exact absurd h1 hne
-    · exact e
-  have ed : skipDigits s p = .err (mkErr (.expectedCharRange 1) p) p := by
-    simp [skipDigits, sim_scanWhile_stop hb hd]
-  unfold getNumberLiteral
-  rw [et]
-  simp only [ed]
-
-theorem sim_wallByte_not_digit : ∀ b : UInt8, wallByte b = true → isDigit b = false := by
-  apply forall_uint8; decide +kernel
-
-theorem getNumberLiteral_simR (h : Sim N s₁ s₂) {p : Nat} (hp : p ≤ N) :
-    SimR N (Hash s₁ N) (getNumberLiteral s₁ p) (getNumberLiteral s₂ p) := by
-  by_cases hlt : p < N
-  · have := getNumberLiteral_sim h hlt
-    exact SimR.of_eq this.1 this.2
-  · have hpN : p = N := by omega
-    subst hpN
-    obtain ⟨b, hb, hw⟩ := h.wall₁
-    have hb2 : s₂[p]? = some b := by rw [h.get p (Nat.le_refl p)]; exact hb
-    by_cases h45 : b = 45
-    · subst h45
-      have hH : ¬ Hash s₁ p := by
-        intro hh
-        unfold Hash at hh
-        rw [hb] at hh
-        cases hh
-      exact SimR.of_past hH (sim_getNumberLiteral_past hb) (sim_getNumberLiteral_past hb2)
-    · have hd := sim_wallByte_not_digit b hw
-      rw [sim_getNumberLiteral_err hb h45 hd, sim_getNumberLiteral_err hb2 h45 hd]
-      exact SimR.of_eq rfl (by cur_close)
-
-theorem sim_variantKey_eq (s : Src) (p : Nat) :
-    variantKey s p = if isNumberStart s p then mapR VKey.num (getNumberLiteral s p) else mapR VKey.ident (getIdentifier s p) := by
-  unfold variantKey
-  split
-  · cases getNumberLiteral s p <;> rfl
-  · cases getIdentifier s p <;> rfl
-
-theorem variantKey_simR (h : Sim N s₁ s₂) {p : Nat} (hp : p ≤ N) : SimR N (Hash s₁ N) (variantKey s₁ p) (variantKey s₂ p) := by
-  rw [sim_variantKey_eq, sim_variantKey_eq, isNumberStart_sim h hp]
-  split
-  · exact (getNumberLiteral_simR h hp).mapR
-  · exact (getIdentifier_simR h hp).mapR
-
 end
 
 end FluentProofs.Parser
